@@ -220,6 +220,9 @@ func (r *Reconciler) reconcileConfiguration(ctx context.Context, config *configa
 
 func (r *Reconciler) updateConfigurationStatus(ctx context.Context, configuration *configapi.Configuration) error {
 	log.Debug(configuration.Status)
+	// The applied path values are not written back: they were not changed, and a copy read before a newer change was
+	// applied would overwrite the newer values.
+	configuration.Status.Applied.Values = nil
 	err := r.configurations.UpdateStatus(ctx, configuration)
 	if err != nil {
 		if !errors.IsNotFound(err) && !errors.IsConflict(err) {
